@@ -15,12 +15,10 @@ EXTENDS Map, Equiv, Json, IOUtils
 TraceLog == ndJsonDeserialize(IOEnv.TRACE)
 NT == Cardinality({i \in DOMAIN TraceLog : TraceLog[i].e = "Term"})
 ASSUME TermsFirst == \A i \in 1..NT : TraceLog[i].e = "Term" /\ TraceLog[i].id = i
-G(t) == TraceLog[t].g
 Cls(t) == TraceLog[t].cls
 IsNan(t) == TraceLog[t].nan = 1
-SameT(t, u) == IF t = u THEN TRUE
-               ELSE IF ~Compat(G(t)[1], G(u)[1]) THEN FALSE
-               ELSE SameGraph(G(t), G(u))
+\* terms are declared as graphs or as symbolic nests (Equiv!SameDeclared)
+SameT(t, u) == IF t = u THEN TRUE ELSE SameDeclared(TraceLog[t], TraceLog[u])
 \* representative of the class of abstract values equal to t
 RepTab == [t \in 1..NT |-> CHOOSE u \in 1..NT : SameT(u, t) /\ \A w \in 1..(u - 1) : ~SameT(w, t)]
 
